@@ -500,6 +500,63 @@ def loop_scenarios(ctx: RunCtx) -> BoundedResult:
     return res
 
 
+def cron_against_brute_force(ctx: RunCtx) -> BoundedResult:
+    """CronCondition._is_satisfied_by against an independent evaluation of the schedule (minute and hour fields with *, */n, lists), for polls and last
+    executions minutes, hours and whole days apart.  Windows of at least a minute only (F-C13-4 is the known finding below that)."""
+    from datetime import UTC, datetime, timedelta
+    from pynenc.trigger.conditions.cron import CronCondition, CronContext
+    res = BoundedResult("cron_against_brute_force", "expressions {* * * * *, */5 * * * *, 0 * * * *, 30 2 * * *, 15,45 */6 * * *} x min_interval {50 s, 1 h} x polls at "
+                        "second offsets {0, 20, 59} of 12 minutes around scheduled instants x last execution in {never, 1 min, 61 min, 1 day + 10 s, 2 days - 5 s, 3 days + 40 s} earlier: "
+                        "decision compared with a brute-force search for the most recent scheduled minute")
+
+    def field(spec, lo, hi):
+        out = set()
+        for part in spec.split(","):
+            if part == "*":
+                out |= set(range(lo, hi + 1))
+            elif part.startswith("*/"):
+                out |= set(range(lo, hi + 1, int(part[2:])))
+            else:
+                out.add(int(part))
+        return out
+    n = 0
+    base = datetime(2026, 3, 10, 2, 25, 0, tzinfo=UTC)
+    for expr in ("* * * * *", "*/5 * * * *", "0 * * * *", "30 2 * * *", "15,45 */6 * * *"):
+        mins, hours = field(expr.split()[0], 0, 59), field(expr.split()[1], 0, 23)
+        for min_interval in (50, 3600):
+            cond = CronCondition(expr, min_interval_seconds=min_interval) if "min_interval_seconds" in CronCondition.__init__.__code__.co_varnames else CronCondition(expr)
+            if getattr(cond, "min_interval_seconds", None) != min_interval:
+                try:
+                    cond.min_interval_seconds = min_interval
+                except Exception:      # noqa: BLE001
+                    pass
+            window = getattr(cond, "check_window_seconds", 60)
+            mi = getattr(cond, "min_interval_seconds", min_interval)
+            if window < 60:
+                continue
+            for minute in range(12):
+                for sec in (0, 20, 59):
+                    t = base + timedelta(minutes=minute, seconds=sec)
+                    m = t.replace(second=0, microsecond=0)
+                    while not (m.minute in mins and m.hour in hours):
+                        m -= timedelta(minutes=1)
+                    for back in (None, 60, 3660, 86410, 2 * 86400 - 5, 3 * 86400 + 40):
+                        n += 1
+                        last = None if back is None else t - timedelta(seconds=back)
+                        want = (t - m).total_seconds() <= window and (last is None or ((t - last).total_seconds() >= mi and last < m))
+                        if getattr(cond, "strict_timing", False):
+                            want = want and (t - m).total_seconds() <= getattr(cond, "precision_tolerance_seconds", 0)
+                        got = bool(cond._is_satisfied_by(CronContext(timestamp=t, last_execution=last)))
+                        if got != want and len(res.failures) < 8:
+                            res.failures.append({"what": f"cron '{expr}' min_interval={mi}s window={window}s: poll {t.isoformat()} with last execution " +
+                                                         ("never" if last is None else f"{back} s earlier") + f": _is_satisfied_by = {got}, the schedule says {want} (most recent scheduled minute {m.isoformat()})",
+                                                 "input": {"cron": expr, "poll": t.isoformat(), "last_execution_seconds_earlier": back, "min_interval": mi}, "finding_key": "cron:decision"})
+    res.cases = n
+    res.distinct = n
+    res.samples = [{"cron": "30 2 * * *", "poll": "2026-03-10T02:30:20+00:00", "last_execution_seconds_earlier": 86410}]
+    return res
+
+
 def build(ctx: RunCtx) -> Prop:
     T = Types(ctx.src)
     reg = base_registry(ctx.src, T)
@@ -508,7 +565,7 @@ def build(ctx: RunCtx) -> Prop:
         pid=PID, title="cron decision = spec under the croniter schedule axioms; compare-and-swap on the last cron execution and trigger-run claims "
                        "(Mem proved incl. lock ownership, SQLite glue incl. BEGIN IMMEDIATE); loop scenarios bounded",
         level="other", technique="contract-based deductive verification (AST->z3 VCs, assumed croniter schedule contract with conformance test, lock/transaction ownership) + bounded loop scenarios",
-        registry=reg, verify=verify, lemmas=[launch_loop_shape, croniter_conformance, cron_monotone_lemma], bounded=[loop_scenarios],
+        registry=reg, verify=verify, lemmas=[launch_loop_shape, croniter_conformance, cron_monotone_lemma], bounded=[loop_scenarios, cron_against_brute_force],
         replayers={"*croniter.match-is-exact*": lambda ctx, ob: ob.get("extra", {}).get("replay", {"confirmed": False})},
         assumptions=["croniter(expr, base).get_next/get_prev return the least / greatest scheduled instant after / before base; the schedule recurs for ever",
                      "croniter.match(expr, t) <=> t is a scheduled instant (ASSUMED by the proof; the conformance test shows the real library has minute precision: finding F-C13-4)",
